@@ -1,3 +1,3 @@
 SPECIFICATION Spec
 CONSTANT Tier = "thorough"
-INVARIANTS CompactLaws EncodeLaws PairLaws HashLaws SubsidyLaws NetLaws RealLaws
+INVARIANTS CompactLaws EncodeLaws PairLaws HashLaws SubsidyLaws NetLaws RealLaws EasiestLaws
